@@ -157,6 +157,12 @@ def string_cases(rng, n):
                     if res in ('u', 'U', 'L') and '\\x' in text and any(ord(ch) > 127 for ch in text):
                         continue
                 out.append((text, elem[res], 'C11|str|%s+%s|concat' % (p1 or 'none', p2 or 'none')))
+    # a string literal enclosed in braces, with and without a trailing comma, initialises the array like the bare literal
+    for p in pfxs:
+        for piece in ('abc', '', 'a\\0b'):
+            out.append(('{%s"%s"}' % (p, piece), elem[p], 'C11|str|%s|braced' % (p or 'none')))
+            out.append(('{%s"%s",}' % (p, piece), elem[p], 'C11|str|%s|braced-trailing-comma' % (p or 'none')))
+            out.append(('{ %s"%s" "x" , }' % (p, piece), elem[p], 'C11|str|%s|braced-trailing-comma' % (p or 'none')))
     return out
 
 
@@ -300,8 +306,11 @@ def run(ctx):
     glob, body, exp = [], [], []
     for i, (text, el, key) in enumerate(strs):
         glob.append('static const %s g%d[] = %s;' % (el, i, text))
-        body.append('OUT(%d, g%d, sizeof g%d); { const %s a[] = %s; OUT(%d, a, sizeof a); } OUTV(%d, sizeof(%s)); OUTV(%d, sizeof((%s)[0]) * 2 + ((typeof((%s)[0]))-1 < 0));' %
-                    (i, i, i, el, text, i, i, text, i, text, text))
+        if text.startswith('{'):
+            body.append('OUT(%d, g%d, sizeof g%d); { const %s a[] = %s; OUT(%d, a, sizeof a); } OUTV(%d, sizeof g%d); OUTV(%d, sizeof(g%d[0]));' % (i, i, i, el, text, i, i, i, i, i))
+        else:
+            body.append('OUT(%d, g%d, sizeof g%d); { const %s a[] = %s; OUT(%d, a, sizeof a); } OUTV(%d, sizeof(%s)); OUTV(%d, sizeof((%s)[0]) * 2 + ((typeof((%s)[0]))-1 < 0));' %
+                        (i, i, i, el, text, i, i, text, i, text, text))
         exp += [(None, key + '|static', text), (None, key + '|auto', text), (None, key + '|sizeof', text), (None, key + '|element-type', text)]
     progs.append(('#include "vrt.h"\n' + '\n'.join(glob) + '\nint main(void) {\n' + '\n'.join(body) + '\nreturn 0;\n}\n', exp))
     body, exp = [], []
